@@ -11,6 +11,7 @@ import (
 	"encoding/hex"
 	"fmt"
 	"sort"
+	"strings"
 
 	abci "github.com/cometbft/cometbft/abci/types"
 
@@ -280,4 +281,40 @@ func DiffKV(a, b []KV) []KVDiff {
 		}
 	}
 	return out
+}
+
+// Transcript records everything a node's operator could observe, in order.
+type Transcript struct{ Lines []string }
+
+func (t *Transcript) Add(format string, a ...interface{}) {
+	if t != nil {
+		t.Lines = append(t.Lines, fmt.Sprintf(format, a...))
+	}
+}
+
+func (t *Transcript) AddResult(msgs []sdk.Msg, r Result) {
+	if t == nil {
+		return
+	}
+	var sb strings.Builder
+	sb.WriteString("TX[")
+	for _, m := range msgs {
+		sb.WriteString(sdk.MsgTypeURL(m) + " ")
+	}
+	fmt.Fprintf(&sb, "] -> %s err=%q gas=%d resp=[", r.Class, r.ErrString(), r.GasUsed)
+	for _, p := range r.Resps {
+		if p != nil {
+			sb.WriteString(p.String() + ";")
+		}
+	}
+	sb.WriteString("] events=[")
+	for _, e := range r.Events {
+		sb.WriteString(e.Type + "{")
+		for _, a := range e.Attributes {
+			sb.WriteString(a.Key + "=" + a.Value + ",")
+		}
+		sb.WriteString("}")
+	}
+	sb.WriteString("]")
+	t.Lines = append(t.Lines, sb.String())
 }
